@@ -151,7 +151,18 @@ def build_universe(seed, tier):
         roots.append({"ty": t, "vals": None, "tags": {"random"}})
         if t["k"] in ("struct", "enum") and rng.random() < 0.5:
             roots.append({"ty": T("vec", t=t, kind=rng.choice(TG.VECKINDS)), "vals": None, "tags": {"random", "vec"}})
+    # evolution histories
+    U_hist = []
+    extra_fns = []
+    nh = 10 if tier == "quick" else 60
+    for hid in range(nh):
+        h = gen_history(rng, g, hid, extra_fns)
+        U_hist.append(h)
+        for j, t in enumerate(h["types"]):
+            roots.append({"ty": t, "vals": None, "tags": {"hist"}, "hist": (hid, j)})
     items += g.items
+    for h in U_hist:
+        items += h["types"]
     # values: the fixed corpus gets seed-independent values (so golden files stay comparable), plus seeded ones
     nvals = 3 if tier == "quick" else 6
     frng = random.Random(424242)
@@ -197,7 +208,9 @@ def build_universe(seed, tier):
             continue
         seen[key] = r
         out.append(r)
-    return {"items": items, "roots": out, "seed": seed, "tier": tier}
+    U = {"items": items, "roots": out, "seed": seed, "tier": tier, "hist": U_hist, "extra_rs": "\n".join(extra_fns)}
+    relink(U)
+    return U
 
 
 _cache = {}
@@ -212,7 +225,7 @@ def ensure(seed, tier, extra_roots_fn=None):
     U = build_universe(seed, tier)
     if extra_roots_fn:
         extra_roots_fn(U)
-    text, tuples, names = TG.render_gen_rs(U["items"], [(r["ty"], r["vals"]) for r in U["roots"]])
+    text, tuples, names = TG.render_gen_rs(U["items"], [(r["ty"], r["vals"]) for r in U["roots"]], U.get("extra_rs", ""))
     with C.Lock("gen"):
         os.makedirs(os.path.dirname(GEN_RS), exist_ok=True)
         old = open(GEN_RS).read() if os.path.exists(GEN_RS) else None
@@ -263,3 +276,108 @@ def ensure(seed, tier, extra_roots_fn=None):
     U["binary"] = binary
     _cache[key] = (U, binary)
     return _cache[key]
+
+
+# ------------------------------------------------------------------ evolution histories (C03 / C18)
+
+def gen_history(rng, g, hid, extra_fns):
+    """A struct evolved over 1..3 versions by the documented rules. Returns dict with per-version types."""
+    import copy
+    packedish = rng.random() < 0.4
+    nbase = rng.choice([1, 2, 3, 4])
+    repr_ = rng.choice(["C", "Rust"])
+    fid = [0]
+
+    def newname():
+        fid[0] += 1
+        return "f%d" % fid[0]
+
+    def fty(need_default):
+        if packedish:
+            return TG.gen_prim(rng, allow_usize=False)
+        return g.gen_ty(rng.choice([0, 1, 1, 2]), packed_bias=False, need_default=need_default)
+
+    fields = [F(newname(), fty(False)) for _ in range(nbase)]
+    versions = [copy.deepcopy(fields)]
+    nedits = rng.choice([1, 2, 2, 3])
+    edits = []
+    for ver in range(1, nedits + 1):
+        live = [i for i, f in enumerate(fields) if f["kind"] == "normal"]
+        do_remove = live and rng.random() < 0.45
+        if do_remove:
+            cand = [i for i in live]
+            abi = rng.random() < 0.6
+            if abi:
+                cand = [i for i in cand if TG.defaultable(fields[i]["ty"])]
+            if not cand:
+                do_remove = False
+        if do_remove:
+            i = rng.choice(cand)
+            f = dict(fields[i])
+            f["kind"] = "abiremoved" if abi else "removed"
+            f["to"] = ver - 1
+            f["default"] = TG.default_val(f["ty"]) if abi else None
+            f.pop("default_mode", None)
+            fields = fields[:i] + [f] + fields[i + 1:]
+            edits.append(("remove", i, abi))
+        else:
+            pos = rng.randrange(len(fields) + 1)
+            t = fty(True)
+            while not TG.defaultable(t):
+                t = TG.gen_prim(rng, allow_usize=False)
+            mode = rng.choice(["trait", "trait", "val", "fn"]) if t["k"] == "int" else rng.choice(["trait", "trait", "fn"] if t["k"] == "string" else ["trait"])
+            name = newname()
+            if mode == "val":
+                z = TG.clampi(rng.choice([42, 1, 100, 7]), t["ity"])
+                f = F(name, t, frm=ver, default=("int", z), mode="val", src=str(z))
+            elif mode == "fn":
+                fn = "dflt_h%d_%s" % (hid, name)
+                if t["k"] == "int":
+                    z = TG.clampi(rng.choice([77, 3, 120]), t["ity"])
+                    extra_fns.append("pub fn %s() -> %s { %d }" % (fn, TG.rust_ty(t), z))
+                    f = F(name, t, frm=ver, default=("int", z), mode="fn", src=fn)
+                else:
+                    extra_fns.append('pub fn %s() -> String { "dflt".to_string() }' % fn)
+                    f = F(name, t, frm=ver, default=("str", b"dflt"), mode="fn", src=fn)
+            else:
+                f = F(name, t, frm=ver)
+            fields = fields[:pos] + [f] + fields[pos:]
+            edits.append(("add", pos, name))
+        versions.append(copy.deepcopy(fields))
+    types = []
+    for j, fs in enumerate(versions):
+        # share nested type objects (layouts are attached to them later): deep copies above copied them, so
+        # re-link field types by name to the originals
+        types.append(S("H%dV%d" % (hid, j), fs, repr_))
+    return {"id": hid, "types": types, "edits": edits}
+
+
+def relink(U):
+    """after deep copies, nested struct/enum dicts may be duplicated objects with equal names: make every node
+    with a given name the same object so that probed layouts are visible everywhere"""
+    canon = {}
+
+    def fix(t):
+        for key in ("t", "a", "b"):
+            if key in t and isinstance(t[key], dict):
+                t[key] = sub(t[key])
+        if t["k"] == "tuple":
+            t["ts"] = [sub(x) for x in t["ts"]]
+        if t["k"] == "struct":
+            for f in t["fields"]:
+                f["ty"] = sub(f["ty"])
+        if t["k"] == "enum":
+            for v in t["variants"]:
+                for f in v["fields"]:
+                    f["ty"] = sub(f["ty"])
+
+    def sub(t):
+        if t["k"] in ("struct", "enum"):
+            if t["name"] in canon:
+                return canon[t["name"]]
+            canon[t["name"]] = t
+        fix(t)
+        return t
+    U["items"] = [sub(it) for it in U["items"]]
+    for r in U["roots"]:
+        r["ty"] = sub(r["ty"])
